@@ -12,7 +12,7 @@ use crate::reference::{
 use crate::rng::{mix, Rng};
 use crate::run::{run_case, Ctor, Draw, Item, IterHist, Load, RKind, RunOut, StaticHist, StaticItem};
 
-pub const N_FAULT_KINDS: usize = 23;
+pub const N_FAULT_KINDS: usize = 24;
 pub const FAULT_NAMES: [&str; N_FAULT_KINDS] = [
     "-",
     "F1_driver_error_in_constructor",
@@ -37,6 +37,7 @@ pub const FAULT_NAMES: [&str; N_FAULT_KINDS] = [
     "F20_interleaved_iterators",
     "F21_rerun_or_reparse",
     "F22_vars_inspection",
+    "F23_caller_continues_after_error_item",
 ];
 
 #[derive(Clone, Debug)]
@@ -790,6 +791,13 @@ fn count_faults(case: &Case, out: &RunOut, f: &mut [u32; N_FAULT_KINDS]) {
         }
         if !it.vars.is_empty() {
             f[22] += it.vars.len() as u32;
+        }
+        if case.continue_after_error {
+            for w in it.steps.windows(2) {
+                if matches!(w[0].item, Item::RuntimeErr(_) | Item::DriverErr(_)) {
+                    f[23] += 1;
+                }
+            }
         }
         let ended = it.steps.iter().filter(|s| s.item == Item::End).count();
         if ended > 1 {
